@@ -235,7 +235,7 @@ def run(ctx):
         relname = "rel_%s" % system
         packaged_text = (REPO / "cij/data/constraints" / system).read_text()
 
-        def oracle(cols, S, b_exact, kw, obs, m, sys_eff=system, rows_eff=None, consistent=True, big=False):
+        def oracle(cols, S, b_exact, kw, obs, m, sys_eff=system, rows_eff=None, consistent=True, big=False, res_exact=None):
             """independent property oracle.  b_exact: exact supplied values per row (list of dict idx->Fraction)"""
             vtol = 1e-5 if m.get("via") == "cli" else 1e-9     # the CLI prints 6 digits
             rows_eff = rows_sys if rows_eff is None else rows_eff
@@ -265,6 +265,20 @@ def run(ctx):
                                                                       "residuals, the residual test is silently skipped)" if not suff else ""),
                                 input=m, expected="Warning(residuals)", observed=dict(obs[1]))
                 return
+            # refusal decision straight from the statement: with the residual refusal armed and a determining
+            # supplied set, fill refuses iff the (exact, Fraction) squared misfit of some volume exceeds the tolerance
+            if res_exact is not None and suff and not ign_res:
+                if float(res_exact) > rtol * (1 + 1e-6) and obs[0] == "ok":
+                    ctx.failure("%s-accepts-contradiction" % sys_eff,
+                                "the supplied values contradict the relations by a squared misfit of %.6g > residual_atol %.3g "
+                                "but the table was accepted" % (float(res_exact), rtol), input=m,
+                                expected="Warning(residuals)", observed=dict(obs[1]))
+                    return
+                if float(res_exact) < rtol * (1 - 1e-6) and obs == ("raise", "ResidualWarning"):
+                    ctx.failure("%s-refuses-within-tolerance" % sys_eff,
+                                "squared misfit %.6g <= residual_atol %.3g but fill raised the residual Warning"
+                                % (float(res_exact), rtol), input=m, expected="accepted", observed="ResidualWarning")
+                    return
             if obs == ("raise", "ResidualWarning") and ign_res:
                 ctx.failure("%s-residual-refusal-with-ignore" % sys_eff, "residual Warning although ignore_residuals is set", input=m)
                 return
@@ -333,7 +347,14 @@ def run(ctx):
             return cols, bx, scale
 
         def mkdf(cols):
-            return pandas.DataFrame({l: v for l, v in cols}, columns=[l for l, _ in cols])
+            df = pandas.DataFrame({l: v for l, v in cols}, columns=[l for l, _ in cols])
+            n = len(df)
+            ikind = rng.choice(["default", "default", "default", "reversed", "offset"])
+            if ikind == "reversed":
+                df.index = list(range(n - 1, -1, -1))
+            elif ikind == "offset":
+                df.index = [7 + 2 * i for i in range(n)]
+            return df
 
         for rep in range(nper):
             fi = rng.randint(0, 3)
@@ -385,7 +406,7 @@ def run(ctx):
                     obs = call(mkdf(cols), system, kw)
                     m = record(system, relname, cols, kw, obs, scale, "perturb%g" % dmul,
                                extra=dict(perturbed=SYMS[i], delta=float(delta), exact_residual=float(res)))
-                    oracle(cols, S, bx, kw, obs, m, consistent=(dmul == 0), big=(dmul == 50))
+                    oracle(cols, S, bx, kw, obs, m, consistent=(dmul == 0), big=(dmul == 50), res_exact=res)
             # --- B'. D12: contradictory AND rank-deficient, ignore_rank alone
             if nv and system != "triclinic":
                 for _try in range(30):
